@@ -305,6 +305,19 @@ class ScriptedPeer:
         """raw bytes the gateway wrote (b'' at EOF)"""
         return self._recv_raw(n)
 
+    def start_drain(self) -> None:
+        """discard whatever the gateway writes from now on (for long workloads that never look at it: an unread pipe
+        would fill up and block the gateway's senders)"""
+
+        def loop():
+            try:
+                while self._recv_raw(65536):
+                    pass
+            except (OSError, ValueError):
+                pass
+
+        threading.Thread(target=loop, daemon=True).start()
+
     def close_peer(self) -> None:
         for c in self._closers:
             try:
